@@ -54,6 +54,8 @@ type ltr struct {
 	sliceRecv    string          // the receiver when it is an LT slice: the function returns it
 	elemMutators []string        // pointer-receiver methods called as statements on elements: M : T -> N -> T
 	outVars      []lvar          // a function without result returns these (LT slices it reorders, the collector calls it makes)
+	elemPreds    []string        // bool methods called on elements: M : T -> bool
+	label        string          // the label of the loop being extracted: `break <label>` directly in its body leaves it
 }
 
 func (t *ltr) clsL(ty types.Type) string {
@@ -97,7 +99,7 @@ func onlyLogs(s ast.Stmt) bool {
 		}
 		switch f := c.Fun.(type) {
 		case *ast.Ident:
-			return f.Name == "LogInfoIf" || f.Name == "LogDebugIf" || f.Name == "LogErrIf"
+			return f.Name == "LogInfoIf" || f.Name == "LogDebugIf" || f.Name == "LogErrIf" || f.Name == "LogInfo" || f.Name == "LogDebug"
 		case *ast.SelectorExpr:
 			if id, ok := f.X.(*ast.Ident); ok && id.Name == "Logger" {
 				return true
@@ -239,6 +241,12 @@ func (t *ltr) lexpr(e ast.Expr) string {
 			t.declare(n, c)
 			return n
 		}
+	case *ast.SliceExpr:
+		if x.Low == nil && x.High != nil && !x.Slice3 && c == "LT" {
+			a, n := t.lexpr(x.X), t.lexpr(x.High)
+			t.g = append(t.g, "(inbS "+a+" "+n+")")
+			return "(firstnT " + a + " " + n + ")"
+		}
 	case *ast.IndexExpr:
 		a, i := t.lexpr(x.X), t.lexpr(x.Index)
 		if t.clsL(t.info.Types[x.X].Type) != "L" || t.clsL(t.info.Types[x.Index].Type) != "Z" {
@@ -334,6 +342,27 @@ func (t *ltr) lexpr(e ast.Expr) string {
 	case *ast.CallExpr:
 		if id, ok := x.Fun.(*ast.Ident); ok && id.Name == "append" && len(x.Args) == 2 && c == "L" && t.clsL(t.info.Types[x.Args[1]].Type) == "N" {
 			return "(" + t.lexpr(x.Args[0]) + " ++ [" + t.lexpr(x.Args[1]) + "])"
+		}
+		if sel, ok := x.Fun.(*ast.SelectorExpr); ok && len(x.Args) == 2 && c == "Z" {
+			if id, ok := sel.X.(*ast.Ident); ok && id.Name == "util" && (sel.Sel.Name == "MaxInt" || sel.Sel.Name == "MinInt") {
+				f := map[string]string{"MaxInt": "Z.max", "MinInt": "Z.min"}[sel.Sel.Name]
+				return "(" + f + " " + t.lexpr(x.Args[0]) + " " + t.lexpr(x.Args[1]) + ")"
+			}
+		}
+		if sel, ok := x.Fun.(*ast.SelectorExpr); ok && len(x.Args) == 0 && c == "B" {
+			if ix, ok := sel.X.(*ast.IndexExpr); ok && t.clsL(t.info.Types[ix.X].Type) == "LT" && t.clsL(t.info.Types[ix.Index].Type) == "Z" {
+				a, i := t.lexpr(ix.X), t.lexpr(ix.Index)
+				m := sel.Sel.Name
+				seen := false
+				for _, e := range t.elemPreds {
+					seen = seen || e == m
+				}
+				if !seen {
+					t.elemPreds = append(t.elemPreds, m)
+				}
+				t.g = append(t.g, "(inbT "+a+" "+i+")")
+				return "(boolAt " + m + " " + a + " " + i + ")"
+			}
 		}
 		// the id codecs (translated in IdsGen.v): functions and methods on integer-class values
 		if id, ok := x.Fun.(*ast.Ident); ok && idCodec[id.Name] {
@@ -541,7 +570,7 @@ func terminal(list []ast.Stmt) bool {
 	}
 	last := list[len(list)-1]
 	_, isRet := last.(*ast.ReturnStmt)
-	if b, ok := last.(*ast.BranchStmt); ok && b.Tok == token.BREAK && b.Label == nil {
+	if b, ok := last.(*ast.BranchStmt); ok && b.Tok == token.BREAK {
 		return true
 	}
 	return isRet || isPanic(last)
@@ -606,7 +635,7 @@ func (t *ltr) lstmts(list []ast.Stmt, k string, ind string) string {
 			return "Panic"
 		}
 	case *ast.BranchStmt:
-		if x.Tok == token.BREAK && x.Label == nil && t.inLoop > 0 && t.brk {
+		if x.Tok == token.BREAK && (x.Label == nil || (x.Label.Name == t.label && t.inLoop == 1)) && t.inLoop > 0 && t.brk {
 			return t.brkRet
 		}
 	case *ast.IncDecStmt:
@@ -976,6 +1005,11 @@ Fixpoint updNth {T : Type} (f : T -> T) (l : list T) (i : nat) : list T :=
   | y :: r, S i' => y :: updNth f r i'
   end.
 Definition updWith {T : Type} (f : T -> T) (l : list T) (i : Z) : list T := updNth f l (Z.to_nat i).
+Definition boolAt {T : Type} (p : T -> bool) (l : list T) (i : Z) : bool :=
+  match nth_error l (Z.to_nat i) with Some x => p x | None => false end.
+(* a[:n] : the bounds test of the slice expression, and the prefix *)
+Definition inbS {T : Type} (l : list T) (n : Z) : bool := ((0 <=? n)%Z && (n <=? Z.of_nat (length l))%Z).
+Definition firstnT {T : Type} (l : list T) (n : Z) : list T := firstn (Z.to_nat n) l.
 Definition swapT {T : Type} (l : list T) (i j : Z) : list T :=
   match nth_error l (Z.to_nat i), nth_error l (Z.to_nat j) with
   | Some a, Some b => updT (updT l (Z.to_nat i) b) (Z.to_nat j) a
@@ -998,6 +1032,9 @@ func cursorGen(pkgs map[string]*packages.Package) (string, []string) {
 	for _, d := range defs {
 		sb.WriteString(d + "\n")
 	}
+	cl, cerrs := translateLabeledLoop(p, "CompactBEIndex_RetrieveWithCollector", "RETRIEVE")
+	sb.WriteString(cl + "\n")
+	errs = append(errs, cerrs...)
 	return sb.String(), errs
 }
 
@@ -1010,7 +1047,7 @@ func hasBreak(list []ast.Stmt) bool {
 		case *ast.ForStmt, *ast.RangeStmt, *ast.SwitchStmt, *ast.TypeSwitchStmt, *ast.SelectStmt, *ast.FuncLit:
 			return false
 		case *ast.BranchStmt:
-			if x.Tok == token.BREAK && x.Label == nil {
+			if x.Tok == token.BREAK {
 				found = true
 			}
 		}
@@ -1144,4 +1181,117 @@ func (t *ltr) swapOf(x *ast.AssignStmt) (string, ast.Expr, ast.Expr, bool) {
 		return "", nil, nil, false
 	}
 	return a, ix[0].Index, ix[1].Index, true
+}
+
+// translateLabeledLoop extracts the `for` statement labelled `label` inside function fn and translates it as a
+// definition of its own over an opaque element type: parameters = the LT slices and integer variables it reads from
+// outside (and the collector of a retrieve context, as the list of calls made), result = the outer variables it assigns.
+func translateLabeledLoop(p *packages.Package, fn, label string) (text string, errs []string) {
+	dn := fn + "_" + label
+	for _, f := range p.Syntax {
+		for _, d := range f.Decls {
+			fd, ok := d.(*ast.FuncDecl)
+			if !ok || fd.Body == nil {
+				continue
+			}
+			name := fd.Name.Name
+			if fd.Recv != nil && len(fd.Recv.List) == 1 {
+				name = recvName(p.TypesInfo.TypeOf(fd.Recv.List[0].Type)) + "_" + name
+			}
+			if name != fn {
+				continue
+			}
+			ast.Inspect(fd.Body, func(n ast.Node) bool {
+				ls, ok := n.(*ast.LabeledStmt)
+				if !ok || ls.Label.Name != label {
+					return true
+				}
+				fs, ok := ls.Stmt.(*ast.ForStmt)
+				if !ok || fs.Cond == nil {
+					return false
+				}
+				base := &tr{info: p.TypesInfo, fset: p.Fset}
+				t := &ltr{tr: base, p: p, fname: dn, flat: map[string]bool{}, label: label}
+				// free variables of the statements that are not dropped, in order of first occurrence
+				var scan func(list []ast.Stmt)
+				visit := func(m ast.Node) bool {
+					switch x := m.(type) {
+					case *ast.SelectorExpr:
+						if in, ok := x.X.(*ast.SelectorExpr); ok && in.Sel.Name == "collector" && x.Sel.Name == "Add" {
+							if id, ok := in.X.(*ast.Ident); ok && !t.inScope(id.Name+"_collector") {
+								t.declare(id.Name+"_collector", "LH")
+								t.outVars = append(t.outVars, lvar{id.Name + "_collector", "LH"})
+							}
+							return false
+						}
+					case *ast.Ident:
+						if v, ok := p.TypesInfo.Uses[x].(*types.Var); ok && !v.IsField() && (v.Pos() < fs.Pos() || v.Pos() > fs.End()) {
+							if c := t.clsL(v.Type()); c != "?" {
+								t.declare(mangle(x.Name), c)
+							}
+						}
+					}
+					return true
+				}
+				scan = func(list []ast.Stmt) {
+					for _, st := range dropLogs(list) {
+						switch x := st.(type) {
+						case *ast.IfStmt:
+							ast.Inspect(x.Cond, visit)
+							scan(x.Body.List)
+							if eb, ok := x.Else.(*ast.BlockStmt); ok {
+								scan(eb.List)
+							}
+						case *ast.ForStmt:
+							if x.Init != nil {
+								ast.Inspect(x.Init, visit)
+							}
+							ast.Inspect(x.Cond, visit)
+							if x.Post != nil {
+								ast.Inspect(x.Post, visit)
+							}
+							scan(x.Body.List)
+						default:
+							ast.Inspect(st, visit)
+						}
+					}
+				}
+				ast.Inspect(fs.Cond, visit)
+				scan(fs.Body.List)
+				nparams := len(t.scope)
+				vs, ok := t.stateVars(fs, []ast.Stmt{fs})
+				if ok {
+					var pdecl []string
+					for _, v := range t.scope[:nparams] {
+						pdecl = append(pdecl, fmt.Sprintf("(%s : %s)", v.name, coqTy(v.cls)))
+					}
+					body := t.lstmts([]ast.Stmt{fs}, "Ret "+tupleV(vs), "  ")
+					text = fmt.Sprintf("Section %s_S.\nVariable T : Type.\n", dn)
+					for _, m := range t.elemMethods {
+						text += fmt.Sprintf("Variable %s : T -> N.\n", m)
+					}
+					for _, m := range t.elemPreds {
+						text += fmt.Sprintf("Variable %s : T -> bool.\n", m)
+					}
+					for _, m := range t.elemMutators {
+						text += fmt.Sprintf("Variable %s : T -> N -> T.\n", m)
+					}
+					text += strings.Join(t.aux, "\n")
+					if len(t.aux) > 0 {
+						text += "\n"
+					}
+					text += fmt.Sprintf("Definition %s (fuel : nat) %s : res (%s) :=\n  %s.\nEnd %s_S.\n", dn, strings.Join(pdecl, " "), tupleTy(vs), body, dn)
+				}
+				errs = append(errs, t.errs...)
+				return false
+			})
+		}
+	}
+	if text == "" || len(errs) > 0 || strings.Contains(text, "UNTRANSLATABLE") {
+		text = fmt.Sprintf("Definition %s_untranslatable := tt.\n", dn)
+		if len(errs) == 0 {
+			errs = append(errs, dn+": labelled loop not found or outside the translated subset")
+		}
+	}
+	return
 }
